@@ -173,7 +173,7 @@ pub fn e2_case(b: &E2Bias) -> BoxedStrategy<E2Case> {
     let epoch = (vec(e2_step(7, b.big, 1, !sync_only), b.min_ops..=b.max_ops), prop::bool::weighted(0.3), prop::bool::weighted(if sync_only { 0.0 } else { 0.2 }), end)
         .prop_map(|(ops, cleanup, flip_sync, end)| Epoch { ops, cleanup, flip_sync, end });
     (cfg, vec(epoch, 1..=b.max_epochs), vec(any::<u16>(), b.validate..=b.validate))
-        .prop_map(|(cfg, epochs, validate)| E2Case { cfg, epochs, validate })
+        .prop_map(|(cfg, epochs, validate)| E2Case { cfg, epochs, validate, check_from_op: None })
         .boxed()
 }
 
@@ -308,6 +308,34 @@ pub fn sched_case(b: &E3Bias) -> BoxedStrategy<SchedCase> {
         2 => Just(Mode::Walk),
         2 => (vec(any::<u8>(), 4), vec(0u8..40, 0..3)).prop_map(|(prio, changes)| Mode::Pct { prio, changes }),
         3 => (vec(any::<u8>(), 4), vec(0u16..24, 0..3), prop::bool::weighted(0.2)).prop_map(|(prio, preempt, all_points)| Mode::Points { prio, preempt, all_points }),
+        4 => (0u8..4, vec((0u16..30, 0u8..4), 0..4), prop::bool::weighted(0.2)).prop_map(|(start, switches, all_points)| Mode::Switch { start, switches, all_points }),
     ];
     (prog(b), mode, vec(any::<u16>(), 0..70)).prop_map(|(prog, mode, choices)| SchedCase { prog, mode, choices }).boxed()
+}
+
+/// Bulk-range histories for C03: thousands of keys, then ONE range removal covering them; only the
+/// removal (and what follows) is cut.
+pub fn e2_bulk_case() -> BoxedStrategy<E2Case> {
+    (
+        proptest::sample::select(vec!["U64".to_string(), "VecU8".to_string()]),
+        prop_oneof![Just(2u64), Just(5u64), Just(100u64), Just(10_000u64)],
+        any::<bool>(),
+        prop_oneof![3 => 1030u16..1300, 2 => 1300u16..2600, 1 => 100u16..1030],
+        proptest::option::of(0u8..6),
+        any::<bool>(),
+    )
+        .prop_map(|(kt, n, asyn, count, extra, checkpoint)| {
+            let mut ops = vec![Step::Bulk { n: count }];
+            if let Some(k) = extra {
+                ops.push(Step::Put { k, c: C::P(2), cuts: vec![] });
+            }
+            if checkpoint {
+                ops.push(Step::Checkpoint);
+            }
+            let from = ops.len();
+            ops.push(Step::RemoveRange { lo: B::U, hi: B::U });
+            ops.push(Step::Put { k: 0, c: C::P(1), cuts: vec![] });
+            E2Case { cfg: Cfg { kt, n, asyn, scan: false, verify: false }, epochs: vec![Epoch { ops, cleanup: false, flip_sync: false, end: End::Clean }], validate: vec![], check_from_op: Some(from) }
+        })
+        .boxed()
 }
